@@ -1,5 +1,37 @@
 import Sqljson.Props.C09b
 import Sqljson.Props.C15
+/-!
+# C15 (second part) — `.**{a to b}` with a following step
+
+"`.**` and `.**{a to b}` return, for each node of the subtree in document pre-order whose depth lies in the
+bounds, … each exactly once …; **with a following step the step is applied to each of those nodes in that order;
+structural errors of following steps are skipped in both modes.**"
+
+`Props/C15.lean` proves the part without a following step (`descend_preorder`).  Here, with the composition law
+(`Lemmas/Compose.lean`, `Props/C09b.lean`):
+
+* `Aux.xItem_any_ign` — a `.**` step evaluates the same whatever `ignoreStructuralErrors` was when it started: it
+  switches the flag on for everything it runs and restores it at the end.  (This is what makes the composition
+  law applicable in strict mode: `C09b.compose_collect` needs the flag on *at the start* when the prefix contains
+  `.**`; we start the prefix `.**{a to b}` from `ignOn s` and put the flag back.)
+* `descend_then_step_exec` (executor level, any state, both modes): the run of `.**{a to b} S` on `v` **is** the
+  feed (`C09b.feed`: the runs of `S` in order, each started where the previous one ended, first failure wins) of
+  the node list `nodesOf … v a b` to `S`, started from the state with the flag **on**; `nodes_preorder`:
+  that list is `v` itself if `a = 0`, then `C15.specL` — the document pre-order of the nodes below `v` filtered
+  by depth (`C15.selects`), each node once.
+* `descend_then_step` (`exec.Query`): `Query($.**{lo to hi} S, doc)` = `resultOf` that feed (error of the first
+  failing run, else the concatenated items).  Side conditions: `S` without `.keyvalue()` and without `last`
+  outside a subscript (`sufFlags`; `$`, `@`… allowed), context never done, enough fuel (`depth doc < k`, query
+  not `outOfFuel`).
+* `descend_then_step_items` / `descend_then_step_fails`: the same in terms of **separate runs** of `S` on each
+  node (`stepRun`: the run of `S` inside `Query($ S, node)` but with `ignoreStructuralErrors` on), for closed `S`
+  (`C09b.rootIndependent`): all succeed → concatenation; first failing node → its error.
+  `stepRun_lax`: in lax mode `stepRun` is literally the run inside `Query($ S, node)`
+  (`descend_then_step_lax`: concatenation of the `Query($ S, nodeᵢ)`); in strict mode it is not — the structural
+  errors `strict $ S` would raise are skipped — see the examples (`strict $.**.b` on `{"x":{"b":1},"y":2}` = `[1]`
+  although `strict $.y.b` errs) and `C09b.counterexample_anyStrict`.  Non-structural errors of the following step
+  are *not* skipped (example with `.double()`).
+-/
 
 namespace Sqljson
 namespace C15b
@@ -75,15 +107,15 @@ theorem anyVisit_sim (item : ItemK) (node : Option Node) (level first last : Nat
     cases node with
     | some n =>
       have e : ({ a.st with ignoreSE := true } : St) = { a'.st with ignoreSE := true } := h1
-      simp only [if_true]
+      simp only
       rw [e, h2]
       exact SimAcc.rfl' _
     | none =>
       simp only
       rw [h2]
       cases hf : a'.found with
-      | some l => exact ⟨h1, by simp [h2, hf], rfl, h4, by simp [hr, hr', SimRet]⟩
-      | none => exact ⟨h1, by simp [h2, hf], h3, h4, by simp only [SimRet]; exact ⟨h1, rfl, rfl, rfl⟩⟩
+      | some l => exact ⟨h1, rfl, rfl, h4, by simp [hr, hr', SimRet]⟩
+      | none => exact ⟨h1, rfl, h3, h4, by simp only [SimRet]; exact ⟨h1, rfl, rfl, rfl⟩⟩
   · simp only [hc]
     exact ⟨h1, h2, h3, h4, h5⟩
 
@@ -273,7 +305,7 @@ theorem anyNode_collect (c : Ctx) (k : Nat) (s1 : St) (hb : s1.budget = none) (h
     rw [if_neg (by simp)]
     obtain ⟨h1, h2, h3, h4⟩ := anyInto_collect c k s1 0 b v [v] hd
     refine ⟨?_, h2, h3, h4⟩
-    simp only [h1, hs2]
+    simp only [h1]
   · simp only [h0, if_false, List.nil_append]
     exact anyInto_collect c k s1 a b v [] hd
 
@@ -570,6 +602,27 @@ theorem descend_then_step_fails (k : Nat) (a : AST) (S : Node) (lo hi : Nat) (do
     (Aux.compatOn_onSt a doc o ho) (by simp [onSt, Aux.ignOn, C09b.sepSt, initSt]) hFo
   unfold resultOf
   simp [hFo, f3, f1, hxe]
+
+
+theorem each_mono {R R' : Item → List Item → Prop} {xs : List Item} {yss : List (List Item)}
+    (h : C09b.Each R xs yss) (hR : ∀ x ys, R x ys → R' x ys) : C09b.Each R' xs yss := by
+  induction h with
+  | nil => exact C09b.Each.nil
+  | cons hx _ ih => exact C09b.Each.cons (hR _ _ hx) ih
+
+/-- **lax mode**: `Query($.**{lo to hi} S, doc)` is the concatenation of the `Query($ S, nodeᵢ)` over the selected
+    nodes in pre-order -/
+theorem descend_then_step_lax (k : Nat) (a : AST) (S : Node) (lo hi : Nat) (doc : Item) (o : Opts)
+    (yss : List (List Item)) (hl : a.lax = true) (hS : C09b.rootIndependent S = true) (ho : o.budget = none)
+    (hd : C15.depth doc < k)
+    (hfuel : queryWith (k + 1) (C09b.withRoot a (C09b.dollar (.any lo hi (some S)))) doc o ≠ .outOfFuel)
+    (hSs : C09b.Each (fun x ys => ∃ k', C09b.Ran (execute k' (C09b.withRoot a (C09b.dollar S)) x o) ys)
+      (nodesOf (k - 1) doc lo hi) yss) :
+    queryWith (k + 1) (C09b.withRoot a (C09b.dollar (.any lo hi (some S)))) doc o = .items yss.flatten :=
+  descend_then_step_items k a S lo hi doc o yss hS ho hd hfuel
+    (each_mono hSs (fun x ys ⟨k', hk'⟩ => by
+      obtain ⟨k2, hk2⟩ := C09b.ran_dollar ho hk'
+      exact ⟨k2, by rw [stepRun_lax a S x o k2 hl]; exact hk2⟩))
 
 /-! ## non-vacuity (by evaluation) -/
 
